@@ -385,13 +385,15 @@ def with_helpers(ctx, fi, exclude=(), only_private=True, depth=3, inline_locals=
             if isinstance(s, ast.Try):
                 for hd in s.handlers:
                     expand_stmt_list(hd.body, d)
-            if isinstance(s, ast.Expr) and isinstance(s.value, ast.Call) and d > 0:
+            is_tail = isinstance(s, ast.Return) and isinstance(s.value, ast.Call)
+            if (is_tail or (isinstance(s, ast.Expr) and isinstance(s.value, ast.Call))) and d > 0:
                 h = _helper_of(ctx.ix, fi, s.value)
-                if eligible(h):
+                if eligible(h) and not (is_tail and _as_expression(_body_no_doc(h.node)) is not None):
                     hb = _body_no_doc(h.node)
                     rets = [r for r in walk_nested_free(h.node) if isinstance(r, ast.Return)]
-                    tail_ret = hb and isinstance(hb[-1], ast.Return) and hb[-1].value is None
-                    if all(r.value is None for r in rets) and len(rets) == (1 if tail_ret else 0):
+                    tail_ret = (not is_tail) and hb and isinstance(hb[-1], ast.Return) and hb[-1].value is None
+                    # statement call: the helper returns nothing; tail call `return h(..)`: the helper's returns become ours
+                    if is_tail or (all(r.value is None for r in rets) and len(rets) == (1 if tail_ret else 0)):
                         m = _bind(h, s.value)
                         if m is not None:
                             counter[0] += 1
